@@ -707,10 +707,14 @@ impl AST {
                     ops.push(Op::Render, pos);
                 }
             }
-            TemplatePart::Expression(expr) => {
+            TemplatePart::Expression(mut expr) => {
                 if place_holder {
                     unreachable!();
                 } else {
+                    // The template is only parsed here, after the rewriter
+                    // went over the file. Imports and includes inside it
+                    // get their paths resolved against the file now.
+                    Rewriter::new(root).walk_expression(&mut expr);
                     Self::translate_expr(expr, ops, root);
                     ops.push(Op::Render, pos);
                 }
